@@ -606,7 +606,7 @@ class Function:
         return base
 
     def canon_local(self, l, point, depth=0, pure=None):
-        if depth > 14:
+        if depth > 40:
             return ("deep", l)
         d = self.single_def(l, point)
         if d is None:
